@@ -455,7 +455,8 @@ def build_world(workdir, seed, n_genes=24, taxonomy='d2_bal', n_cells_per_leaf=6
                 encoding='dense', n_query=18, query_normalization='raw',
                 permute_query_genes=True, n_extra_query_genes=3, n_per_utility=3,
                 ref_encoding='dense', zero_cell=False, n_processors=2, name=None,
-                query_kinds=('pure', 'mix', 'mix', 'noise'), n_unlabelled=0):
+                query_kinds=('pure', 'mix', 'mix', 'noise'), n_unlabelled=0, n_ref_files=1,
+                cells_per_leaf=None):
     """Build a tiny reference + query world by running the package's own stages.
 
     taxonomy: a name from SHAPES or a spec dict ({'hierarchy': [...], level: {parent: [children]}}).
@@ -486,9 +487,12 @@ def build_world(workdir, seed, n_genes=24, taxonomy='d2_bal', n_cells_per_leaf=6
     means = _leaf_means(spec, roles, rng)
     # reference rows: leaves interleaved (rows of a leaf are not contiguous)
     row_leaf = []
-    for k in range(n_cells_per_leaf):
+    # cells_per_leaf: optional {leaf: number of reference cells} (boundary cluster sizes); others n_cells_per_leaf
+    per_leaf = {lf: int((cells_per_leaf or {}).get(lf, n_cells_per_leaf)) for lf in leaves}
+    for k in range(max(per_leaf.values())):
         for lf in leaves:
-            row_leaf.append(lf)
+            if k < per_leaf[lf]:
+                row_leaf.append(lf)
     # reference cells that the taxonomy assigns to no leaf (they must contribute nothing)
     row_leaf += [None] * int(n_unlabelled)
     perm = rng.permutation(len(row_leaf))
@@ -534,11 +538,37 @@ def build_world(workdir, seed, n_genes=24, taxonomy='d2_bal', n_cells_per_leaf=6
     with quiet():
         # ---- stage 1: precomputed statistics (the package's own stage) ----
         precomputed_path = str(wdir / 'precomputed_stats.h5')
-        precompute_summary_stats_from_h5ad(
-            data_path=reference_path, column_hierarchy=None,
-            taxonomy_tree=TaxonomyTree(data=tree), output_path=precomputed_path,
-            rows_at_a_time=max(2, len(row_leaf) // 3), normalization='raw', tmp_dir=str(tmp),
-            n_processors=n_processors)
+        if int(n_ref_files) <= 1:
+            precompute_summary_stats_from_h5ad(
+                data_path=reference_path, column_hierarchy=None,
+                taxonomy_tree=TaxonomyTree(data=tree), output_path=precomputed_path,
+                rows_at_a_time=max(2, len(row_leaf) // 3), normalization='raw', tmp_dir=str(tmp),
+                n_processors=n_processors)
+        else:
+            # the same reference cells spread over several h5ad files (the first one the longest), cells
+            # named by the taxonomy: the package's list-of-files entry point
+            from cell_type_mapper.diff_exp.precompute_from_anndata import \
+                precompute_summary_stats_from_h5ad_list_and_tree
+            k = int(n_ref_files)
+            n = len(row_leaf)
+            first = max(n - (k - 1) * max(1, n // (k + 1)), 1)
+            cuts = [0, first]
+            while len(cuts) < k:
+                cuts.append(min(n, cuts[-1] + max(1, n // (k + 1))))
+            cuts.append(n)
+            paths = []
+            for a, b in zip(cuts[:-1], cuts[1:]):
+                if b > a:
+                    paths.append(_write_h5ad(wdir / f'reference_part{len(paths)}.h5ad', ref_X[a:b], ref_ids[a:b],
+                                             ref_genes, encoding=ref_encoding,
+                                             obs_cols={c: v[a:b] for c, v in obs_cols.items()}))
+            named = tree_dict_from_spec(spec, {lf: [] for lf in leaves})
+            named[h[-1]] = {lf: [ref_ids[r] for r in rows_of_leaf[lf]] for lf in leaves}
+            precompute_summary_stats_from_h5ad_list_and_tree(
+                data_path_list=paths, taxonomy_tree=TaxonomyTree(data=named), output_path=precomputed_path,
+                rows_at_a_time=max(2, len(row_leaf) // 5), normalization='raw', tmp_dir=str(tmp),
+                n_processors=n_processors)
+            world.reference_parts = paths
         world.precompute_kwargs = dict(rows_at_a_time=max(2, len(row_leaf) // 3), n_processors=n_processors)
         world.precomputed_path = precomputed_path
         world.stage_log.append('precompute ok')
